@@ -7,6 +7,7 @@ from ..interp import stable
 from ..loader import Place
 from .. import interp as I
 from .chunk import sig
+from ..grammar import fmt_tok
 
 SPEC = os.path.join(os.path.dirname(os.path.dirname(os.path.dirname(os.path.abspath(__file__)))), "spec", "handshake.json")
 ROLE = {0: "Server", 1: "Client"}
@@ -282,3 +283,10 @@ def run(env, rep):
                     # the copied array was filled from the drained input
                     echo = contains(val, lambda x: x[0] == "call" and "drain" in (x[2] or "").lower())
     rep.check("C11.R4", "echo-without-digest", echo, "without a digest the response is a copy of the received packet 1", "the digest-less fallback does not answer with the received packet", pb.span)
+    # a packet 1 without a digest is never an error: once 1536 bytes are there, no path of the packet-1 stage returns Err
+    # (the digest search fails only with 'no digest found', and that case is answered with the echo)
+    ex = grammar.trace(env, pb.key, "r")
+    errs = [p for p in ex.paths if p and p[-1] == ("end", "err")]
+    why = sorted({" ".join(fmt_tok(t) for t in p if t[0] == "when")[-260:] for p in errs})
+    rep.check("C11.R4", "packet-1-never-refused", not errs and not ex.truncated and len(ex.paths) >= 2, "no path of the packet-1 stage ends in an error (%d paths)" % len(ex.paths),
+              "the packet-1 stage can return an error: %s - a peer using the original handshake (no digest, any version field) must get its packet echoed, not be refused" % (why[:2] or "paths could not be enumerated"), pb.span)
